@@ -45,8 +45,9 @@ def gen(seed, tier):
     n = 600 if tier == 'thorough' else 100
     for k in range(n):
         files = []
-        for fi in range(rnd.randint(1, 2)):
-            pkg = rnd.choice(['', 'p', 'p.q', 'other'])
+        many = k % 40 == 39      # scale: now and then a registry of 25 files in 25 packages
+        for fi in range(25 if many else rnd.randint(1, 2)):
+            pkg = f'big.p{fi}' if many else rnd.choice(['', 'p', 'p.q', 'other'])
             f = {'name': f'f{fi}_{k}.proto', 'nb': list(f'f{fi}_{k}.proto'.encode()), 'package': pkg, 'pkgb': list(pkg.encode()),
                  'messages': [gen_msg(rnd, 3 if tier == 'thorough' else 2, 10 * fi + i) for i in range(rnd.randint(0, 2))],
                  'enums': [gen_enum(rnd, 90 + fi)] if rnd.random() < 0.4 else [],
